@@ -78,6 +78,25 @@ Section ExecCone.
       kept P P' (sid s) = false \/
       exec_cause P' y (resync P' (retarget P P' y) w) (rebuild_dyn run P y P' w) s.
 
+  (* ALL SCHEDULES of the rebuild: the steps get their turns in the order of the list [sched] --
+     any order, any repetitions (a step that is not ready at its turn gets another one later), any
+     subset of the steps of the project.  The pending propagation of the rescan is the one of the
+     project; only the order of the dispatch decisions is free. *)
+  Definition ran_s (proj sched : project) (y1 : sys) (id : N) : Prop :=
+    In (id, true) (build_log run proj sched y1).
+  Definition exec_cause_s (proj sched : project) (y y1 z : sys) (s : step) : Prop :=
+    stt y (sid s) = Pending
+    \/ (exists p, In p (inp s) /\ is_output proj p = false /\ fs y1 p <> fs y p)
+    \/ (exists n, In n (envn s) /\ ev y1 n <> ev y n)
+    \/ (exists p q, In p (inp s) /\ In q proj /\ In p (out q) /\ sid q <> sid s /\
+                    ran_s proj sched y1 (sid q) /\ fs z p <> fs y p).
+  Definition C04_exec_cone_schedules : Prop :=
+    forall (P P' sched : project) (y : sys) (w : world) (s : step),
+      wf P' = true -> Pre run P y -> In s P' -> (forall q, In q sched -> In q P') ->
+      let y1 := resync P' (retarget P P' y) w in
+      ran_s P' sched y1 (sid s) ->
+      kept P P' (sid s) = false \/ exec_cause_s P' sched y y1 (build_from run P' sched y1) s.
+
   (* The cone stops at an output that is rebuilt with identical content: a recycled step that was
      up to date, consumes no edited source, tracks no changed variable, and all of whose built
      inputs have the same content after the rebuild as before it, is NOT executed. *)
@@ -130,8 +149,9 @@ Section ExecConeAmend.
       a_ran proj (resync_a proj y w) (sid s) ->
       exec_cause_a proj y (resync_a proj y w) (build_world_a run amend fails true proj w y) s.
 
-  (* for ALL histories of worlds from an empty .stepup (the hypothesis K_a discharged): stated, not
-     proved here -- C01 proves the invariant for the UNGATED engine only (EngineAmendFull.v) *)
+  (* for ALL histories of worlds from an empty .stepup (the hypothesis K_a discharged: a decision of
+     the gated engine is nothing or the decision of the ungated one, for which C01 proves the
+     invariant InvA, proofs/EngineAmendFull.v) *)
   Definition C04_exec_cone_amend_full : Prop :=
     forall (proj : project) (ws : list world) (w : world) (s : step),
       wf_a amend proj -> In s proj ->
